@@ -195,18 +195,21 @@ Proof.
       destruct (is_nil (remove_w w (c_subs x))); [destruct (idle s)|]; simpl in E; discriminate.
 Qed.
 
-(* ---- terminal_local: a complete / error for (c, w) removes exactly that entry ---- *)
+(* ---- terminal_local: a frame that MEANS a terminal message for wire id w (complete; error with or
+   without payload; legacy connection_error carrying an id) removes exactly the entry (c, w) ---- *)
 Theorem terminal_local_proof : forall idl s log, reach idl s log ->
-  forall c w k s1 e1 s2 e2, terminal k = true ->
-    step s (UpMsg c w k) = Some (s1, e1) -> step s1 (ARLRemove c) = Some (s2, e2) ->
+  forall c x f w k s1 e1 s2 e2, cns s c = Some x -> spec_class (c_proto x) f = FcSub w k -> terminal k = true ->
+    step s (UpMsg c f) = Some (s1, e1) -> step s1 (ARLRemove c) = Some (s2, e2) ->
     (forall c' x x', c' <> c -> cns s c' = Some x -> cns s2 c' = Some x' -> c_subs x' = c_subs x)
     /\ (forall x x', cns s c = Some x -> cns s2 c = Some x' ->
           forall w' i, In (w', i) (c_subs x') <-> (In (w', i) (c_subs x) /\ w' <> w))
     /\ (forall j, pc s2 j = pc s j)
     /\ (forall e, In e (e1 ++ e2) -> match e with OConnErr _ _ | ORet _ _ => False | _ => True end).
 Proof.
-  intros idl s log HR c w k s1 e1 s2 e2 Hk H1 H2.
-  inv_step H1; simpl in *; try discriminate.
+  intros idl s log HR c x f w k s1 e1 s2 e2 Hx Hcl Hk H1 H2.
+  destruct (upmsg_cases _ _ _ _ _ H1) as (x0 & Hx0 & Hrl & Hclo & Hdd & Hc).
+  rewrite Hx in Hx0; inversion Hx0; subst x0; clear Hx0. rewrite Hcl, Hk in Hc.
+  destruct Hc as [_ [(i & Hl & -> & ->)|(Hl & -> & ->)]].
   - (* delivered and terminal *)
     inv_step H2; simp; rewrite upd_same in *; inj_all; simpl in *; inj_all; expl;
       simp; rewrite ?upd_same in *; inj_all.
@@ -227,6 +230,45 @@ Proof.
                 assert (In (w', i) (remove_w w l)) by (apply remove_w_In; tauto); rewrite E1 in *; simpl in *; tauto end).
   - (* unknown id: nothing delivered, read loop stays in RLRun *)
     inv_step H2; congruence.
+Qed.
+
+(* ---- every OTHER frame is local too: a frame that concerns no subscription (ping / pong / ka; an error,
+   complete, data or connection_error frame WITHOUT an id), a frame for an id nobody holds (unknown,
+   finished, or registered on another connection) and a non-terminal frame change no state at all and
+   reach at most the one holder of the id; a frame that violates the protocol (not JSON, unknown type,
+   unusable next payload) is an upstream fault on connection c alone: its socket is dead with cause
+   CUpstream, every table (c's included) and every subscriber's program point are untouched ---- *)
+Theorem frame_local_proof : forall s c f s1 e1, step s (UpMsg c f) = Some (s1, e1) ->
+  exists x, cns s c = Some x /\
+  match spec_class (c_proto x) f with
+  | FcNone => s1 = s /\ e1 = [OUp c (c_proto x) f]
+  | FcSub w k =>
+    (forall i, ~ In (w, i) (c_subs x)) /\ s1 = s /\ e1 = [OUp c (c_proto x) f]
+    \/ exists i, In (w, i) (c_subs x) /\ e1 = [OUp c (c_proto x) f; ODeliver i k] /\ (terminal k = false -> s1 = s)
+  | FcFault =>
+    e1 = [OUp c (c_proto x) f; OSrvClosed c] /\ (forall j, pc s1 j = pc s j) /\ (forall c', c' <> c -> cns s1 c' = cns s c')
+    /\ conns s1 = conns s /\ exists x', cns s1 c = Some x' /\ c_subs x' = c_subs x /\ c_dead x' = Some CUpstream
+  end.
+Proof.
+  intros s c f s1 e1 H. destruct (upmsg_cases _ _ _ _ _ H) as (x & Hx & Hrl & Hclo & Hdd & Hc).
+  exists x. split; auto. destruct (spec_class (c_proto x) f) as [w k| |].
+  - destruct Hc as [_ [(i & Hl & -> & ->)|(Hl & -> & ->)]].
+    + right. exists i. split; [apply lookup_In; auto|]. split; auto. intros Ht. rewrite Ht. reflexivity.
+    + left. split; auto. apply lookup_None; auto.
+  - exact Hc.
+  - destruct Hc as [-> ->]. split; auto. split; [reflexivity|]. split.
+    + intros c' Hne. simpl. rewrite upd_other by auto. reflexivity.
+    + split; [reflexivity|]. eexists. split; [simpl; rewrite upd_same; reflexivity|]. simpl. rewrite Hdd. auto.
+Qed.
+
+(* the window form used on the implementation's log: the events of the step that reads a frame addressed to ONE
+   subscription (and, by terminal_local_proof, those of the removal that follows) pass Spec.tlocal_b *)
+Theorem terminal_window_proof : forall s c f s1 e1 x w k, step s (UpMsg c f) = Some (s1, e1) -> cns s c = Some x ->
+  spec_class (c_proto x) f = FcSub w k -> tlocal_b (lookup w (c_subs x)) e1 = true.
+Proof.
+  intros s c f s1 e1 x w k H Hx Hc. destruct (upmsg_cases _ _ _ _ _ H) as (x0 & Hx0 & _ & _ & _ & Hcase).
+  rewrite Hx in Hx0; inversion Hx0; subst x0. rewrite Hc in Hcase.
+  destruct Hcase as [_ [(i & Hl & -> & _)|(Hl & _ & ->)]]; rewrite Hl; simpl; rewrite ?Nat.eqb_refl; reflexivity.
 Qed.
 
 (* ---- double removal: removeSub of an id that is no longer in the table is a no-op; it starts the
